@@ -242,6 +242,22 @@ def worker(rec, shard, nshards, setups, lits, seed):
                 if ("UNITS_MISSING", 10) not in codes or any(c in ("UNITS_INVALID", "VALUE_INVALID") for c, _ in codes):
                     rec.violation("C11:bare-number-not-only-missing-unit-warning", schema=st.label, text=text, codes=codes)
                 rec.outcome("bare")
+            # a word between the number and a declared unit: no reading (number, blank, unit) exists -> rejected
+            plain_units = [u.name for u, uc in st.orc.units_of(tag) if "unitPrefix" not in u.attrs and " " not in u.name]
+            for u0 in plain_units[:2]:
+                for text in (f"{tag.name}/{lits[0]} x {u0}", f"{tag.name}/{lits[0]} {u0} {u0}",
+                             f"{tag.name}/{lits[0]} zzq {u0}", f"{tag.name}/{lits[0]} 4 {u0}"):
+                    rec.n("evaluations")
+                    rec.n("distinct_nontrivial")
+                    try:
+                        codes = [i["code"] for i in st.validator.validate(HedString(text, st.schema), False)]
+                    except Exception as e:
+                        rec.violation("C11:validate-raises:" + type(e).__name__, schema=st.label, text=text, error=repr(e)[:200])
+                        continue
+                    if "UNITS_INVALID" not in codes and "VALUE_INVALID" not in codes:
+                        rec.violation("C11:undeclared-unit-accepted:word-between-number-and-unit", schema=st.label, text=text,
+                                      codes=codes)
+                    rec.outcome("embedded-word")
             for u, uc in st.orc.units_of(tag):
                 if "unitPrefix" not in u.attrs:
                     continue
